@@ -907,3 +907,41 @@ Proof.
       rewrite Mf in IH. pose proof (filter_name_nonempty n f Hmf) as Hne.
       destruct (filter (fun m => String.eqb (m_name m) n) (t_own f)); [contradiction|exact IH].
 Qed.
+
+(* the selector rule and the selected declaration agree, at any depth: a name is in the method
+   set exactly when the unique shallowest selector of that name is a method — so a name whose
+   shallowest selector is a struct field is not in the method set *)
+Lemma go_ms_selects_level n : forall fuel lvl, Forall wf_tree lvl ->
+  ms_level fuel lvl n = true ->
+  exists m0, find_level fuel lvl n = Some m0 /\ is_meth m0 = true /\ m_name m0 = n.
+Proof.
+  induction fuel as [|f IH]; intros lvl Hwf Hms; rewrite ms_level_unfold in Hms;
+    rewrite find_level_unfold.
+  - destruct (count_level lvl n) as [|[|c]] eqn:Ec; try discriminate.
+    apply mlevel_exists in Hms as [x [Hx Hm]].
+    rewrite (matches_unique _ _ x Ec Hx (mem_meth_own _ _ Hm)).
+    apply mem_In in Hm. unfold meth_names in Hm. apply in_map_iff in Hm as [m [Hn Hin]].
+    apply filter_In in Hin as [Hin Hme]. subst n.
+    rewrite Forall_forall in Hwf. rewrite (filter_name_own _ m (wf_own _ (Hwf x Hx)) Hin). eauto.
+  - destruct (count_level lvl n) as [|[|c]] eqn:Ec; try discriminate.
+    + rewrite (matches_zero _ _ Ec). apply IH; [|assumption].
+      apply Forall_forall. intros y Hy. apply in_flat_map in Hy as [x [Hx Hy]].
+      rewrite Forall_forall in Hwf. apply (wf_emb x y (Hwf x Hx) Hy).
+    + apply mlevel_exists in Hms as [x [Hx Hm]].
+      rewrite (matches_unique _ _ x Ec Hx (mem_meth_own _ _ Hm)).
+      apply mem_In in Hm. unfold meth_names in Hm. apply in_map_iff in Hm as [m [Hn Hin]].
+      apply filter_In in Hin as [Hin Hme]. subst n.
+      rewrite Forall_forall in Hwf. rewrite (filter_name_own _ m (wf_own _ (Hwf x Hx)) Hin). eauto.
+Qed.
+
+Lemma go_ms_selects t n : wf_tree t -> go_ms t n = true ->
+  exists m0, find_decl t n = Some m0 /\ is_meth m0 = true /\ m_name m0 = n.
+Proof. intros Hwf. apply go_ms_selects_level. constructor; [assumption|constructor]. Qed.
+
+Lemma field_not_in_method_set t n m0 : wf_tree t ->
+  find_decl t n = Some m0 -> m_field m0 = true -> go_ms t n = false.
+Proof.
+  intros Hwf Hf Hfld. destruct (go_ms t n) eqn:E; [|reflexivity].
+  destruct (go_ms_selects t n Hwf E) as [m1 [H1 [H2 _]]]. rewrite Hf in H1. injection H1 as ->.
+  unfold is_meth in H2. rewrite Hfld in H2. discriminate.
+Qed.
